@@ -402,6 +402,7 @@ pub struct KManager<'id> {
     pub level2var: [VarNo; L],
     pub cache: KCache,
     pub x: KExtra,
+    pub pool: KPool,
 }
 
 impl<'id> KManager<'id> {
@@ -827,6 +828,55 @@ impl<'id> HasApplyCache<KManager<'id>, KOp> for KManager<'id> {
     }
 }
 
+// ---------------------------------------------------------------- worker pool (C07, narrow)
+
+/// Stub `WorkerPool`: `join(a, b)` runs the two closures sequentially in an *arbitrary* order
+/// (chosen by the solver per call), `split_depth` is an arbitrary small number. Real threads
+/// do not exist under Kani; what is decided is that the result of the multi-threaded apply
+/// algorithms does not depend on the serialisation order of forked sub-problems and that a
+/// failing branch does not leak the sibling's result.
+pub struct KPool {
+    pub depth: u32,
+}
+unsafe impl Sync for KPool {}
+unsafe impl<'id> Sync for KManager<'id> {}
+impl oxidd_core::WorkerPool for KPool {
+    fn current_num_threads(&self) -> usize {
+        2
+    }
+    fn split_depth(&self) -> u32 {
+        self.depth
+    }
+    fn set_split_depth(&self, _depth: Option<u32>) {}
+    fn install<R: Send>(&self, op: impl FnOnce() -> R + Send) -> R {
+        op()
+    }
+    fn join<RA: Send, RB: Send>(&self, op_a: impl FnOnce() -> RA + Send, op_b: impl FnOnce() -> RB + Send) -> (RA, RB) {
+        #[cfg(kani)]
+        let a_first: bool = kani::any();
+        #[cfg(not(kani))]
+        let a_first = true;
+        if a_first {
+            let a = op_a();
+            let b = op_b();
+            (a, b)
+        } else {
+            let b = op_b();
+            let a = op_a();
+            (a, b)
+        }
+    }
+    fn broadcast<R: Send>(&self, _op: impl Fn(oxidd_core::BroadcastContext) -> R + Sync) -> Vec<R> {
+        unimplemented!()
+    }
+}
+impl<'id> oxidd_core::HasWorkers for KManager<'id> {
+    type WorkerPool = KPool;
+    fn workers(&self) -> &KPool {
+        &self.pool
+    }
+}
+
 // ---------------------------------------------------------------- Function plumbing (type level only)
 
 #[derive(Clone, PartialEq, Eq, Hash)]
@@ -910,6 +960,7 @@ macro_rules! k_new_manager {
             level2var: order.1,
             cache: $cache,
             x: $x,
+            pool: KPool { depth: 1 },
         }
     }};
 }
